@@ -1,5 +1,424 @@
-"""tie of Codec/Comb.v with cspuz.problem_serializer (placeholder until the model is wired)"""
-def run(ctx, m):
-    pass
+"""Correspondence of Codec/Comb.v (extracted) with cspuz.problem_serializer."""
+import signal
+
+import vlib
+import c15gen as G
+
+ERR = {1: "IndexError", 2: "KeyError", 3: "AssertionError", 4: "TypeError", 5: "ValueError",
+       6: "RecursionError", 7: "NotImplementedError", 8: "Other"}
+
+ALPHABET = "0123456789abcdefghijklmnopqrstuvwxyz" + "-+._/ ?G" + "\xb2\xa0\n"
+
+
 def parse_term(toks, i=0):
-    raise NotImplementedError
+    """inverse of c15gen.term_tok"""
+    k = toks[i]
+    if k == "F":
+        return ("F", G.unhx(toks[i + 1])), i + 2
+    if k == "D":
+        n = int(toks[i + 1])
+        j = i + 2
+        before = []
+        for _ in range(n):
+            v, j = G.parse_pv(toks, j)
+            before.append(v)
+        after = [G.unhx(t) for t in toks[j:j + n]]
+        return ("D", before, after), j + n
+    if k == "S":
+        v, j = G.parse_pv(toks, i + 1)
+        return ("S", v, G.unhx(toks[j])), j + 1
+    if k in ("I", "H"):
+        return (k,), i + 1
+    if k == "P":
+        v, j = G.parse_pv(toks, i + 1)
+        return ("P", v, int(toks[j]), int(toks[j + 1])), j + 2
+    if k == "M":
+        return ("M", int(toks[i + 1]), int(toks[i + 2])), i + 3
+    if k in ("O", "T"):
+        n = int(toks[i + 1])
+        j = i + 2
+        l = []
+        for _ in range(n):
+            t, j = parse_term(toks, j)
+            l.append(t)
+        return (k, l), j
+    if k == "Q":
+        t, j = parse_term(toks, i + 1)
+        return ("Q", t, int(toks[j])), j + 1
+    if k == "G":
+        t, j = parse_term(toks, i + 1)
+        if toks[j] == "-":
+            return ("G", t, None), j + 1
+        return ("G", t, (int(toks[j]), int(toks[j + 1]))), j + 2
+    if k == "R":
+        return ("R", toks[i + 1] == "1", toks[i + 2] == "1"), i + 3
+    if k == "V":
+        t, j = parse_term(toks, i + 1)
+        return ("V", t, toks[j] == "1", toks[j + 1] == "1"), j + 2
+    raise ValueError("term token " + k)
+
+
+def parse_model(r, kind):
+    t = r.split()
+    if not t:
+        return ("model-exn", r)
+    if t[0] == "E":
+        return ("err", ERR[int(t[1])])
+    if t[0] == "N":
+        return ("ok", None)
+    if t[0] == "EXN":
+        return ("model-exn", r)
+    if kind == "ser":
+        return ("ok", (int(t[1]), G.unhx(t[2])))
+    if kind == "de":
+        v, _ = G.parse_pv(t, 2)
+        return ("ok", (int(t[1]), v))
+    if kind == "str":
+        return ("ok", G.unhx(t[1]))
+    if kind == "pv":
+        v, _ = G.parse_pv(t, 1)
+        return ("ok", v)
+    raise RuntimeError("bad model reply " + r)
+
+
+class _Timeout(Exception):
+    pass
+
+
+def _alarm(signum, frame):
+    raise _Timeout()
+
+
+def timed(f):
+    """run f with a 1 s alarm (Python loops that never end on ill-formed terms)"""
+    old = signal.signal(signal.SIGALRM, _alarm)
+    signal.setitimer(signal.ITIMER_REAL, 1.0)
+    try:
+        return f()
+    except _Timeout:
+        return ("err", "Other")
+    finally:
+        signal.setitimer(signal.ITIMER_REAL, 0)
+        signal.signal(signal.SIGALRM, old)
+
+
+def norm(r):
+    """impl result -> comparable form (tuples of (k, x) only at the top)"""
+    if r[0] == "err":
+        return r
+    if r[1] is None:
+        return ("ok", None)
+    return ("ok", (r[1][0], r[1][1]))
+
+
+def strict_eq(a, b):
+    """== that distinguishes list/tuple and int/bool/str recursively"""
+    if type(a) is not type(b):
+        return False
+    if isinstance(a, (list, tuple)):
+        return len(a) == len(b) and all(strict_eq(x, y) for x, y in zip(a, b))
+    return a == b
+
+
+def latin1(s):
+    return all(ord(c) < 256 for c in s)
+
+
+def env(h, w):
+    from cspuz.problem_serializer import CombinatorEnv
+    return CombinatorEnv(h, w)
+
+
+def value_ok(v):
+    try:
+        G.pv_tok(v)
+        return True
+    except TypeError:
+        return False
+
+
+def sort_safe(t, data):
+    """ValuedRooms.serialize sorts the rooms: exclude inputs on which CPython's choice of comparisons matters"""
+    def walk(v):
+        if isinstance(v, tuple) and len(v) == 2 and isinstance(v[0], (list, tuple, str)) and len(v[0]) >= 3:
+            for r in v[0]:
+                if not (isinstance(r, list) and r and all(isinstance(p, tuple) and len(p) == 2 and
+                                                          all(isinstance(q, int) for q in p) for p in r)):
+                    return False
+        if isinstance(v, (list, tuple)):
+            return all(walk(x) for x in v)
+        return True
+    return (not G.has_rooms(t)) or walk(data)
+
+
+def _cls(r):
+    if r[0] == "err":
+        return "err:" + str(r[1])
+    return "none" if r[1] is None else "value"
+
+
+def run(ctx, m):
+    import pC15
+    _corr = ctx.corr
+
+    def corr(kind, inp, mo, io, **kw):
+        ctx.count("outcome:%s:%s" % (kind, _cls(io) if isinstance(io, tuple) else "flag"))
+        return _corr(kind, inp, mo, io, **kw)
+    ctx.corr = corr
+    try:
+        _run(ctx, m)
+    finally:
+        ctx.corr = _corr
+
+
+def _run(ctx, m):
+    import pC15
+    rng = ctx.rng
+    n_terms = 400 if ctx.thorough else 120
+    terms = pC15.gen_terms(ctx, n_terms)
+    ctx._c15_terms = terms
+    objs = {}
+
+    def obj(t):
+        k = G.term_tok(t)
+        if k not in objs:
+            objs[k] = G.build(t)
+        return objs[k]
+
+    # ---- 0. constructor checks and the Python twin of wf/first/cont
+    outs = m.batch(["OK " + G.term_tok(t) for t in terms] + ["WF " + G.term_tok(t) for t in terms])
+    for i, t in enumerate(terms):
+        ctx.corr("ctor-ok", G.term_repr(t), outs[i], "1")
+        ctx.corr("wf-twin", G.term_repr(t), outs[len(terms) + i], "1" if G.wf(t) else "0")
+    # constructor failures
+    bad = [("S", 0, "."), ("S", 0, "\xb2"), ("P", -1, 5, 5), ("P", -1, 35, 1), ("M", 2, 6), ("M", 37, 1),
+           ("M", 6, 2), ("P", -1, 0, 35), ("S", 0, "Z"), ("M", 0, 3), ("M", -2, 2), ("P", -1, -1, 40)]
+    outs = m.batch(["OK " + G.term_tok(t) for t in bad])
+    for t, o in zip(bad, outs):
+        io = vlib.guarded(lambda: G.build(t))
+        ctx.corr("ctor", G.term_repr(t), o, "1" if io[0] == "ok" else "0")
+
+    # ---- 1. serialize: valid values, offsets, lookahead, ill-shaped values
+    per = 24 if ctx.thorough else 8
+    ser_cases = []
+    for (t, h, w, items) in pC15.gen_valid_cases(ctx, terms, per):
+        ser_cases.append(("ser", t, h, w, items, 0))
+        if rng.random() < 0.5:
+            junk = [rng.choice([0, -1, None, "x", (1,), [2]]) for _ in range(rng.randint(1, 2))]
+            try:
+                more = G.gen_chunk(rng, t, h, w)
+            except G.NoValue:
+                more = []
+            ser_cases.append(("ser", t, h, w, junk + items + more, len(junk)))
+        if rng.random() < 0.5 and items:
+            ser_cases.append(("ser", t, h, w, items, rng.randint(1, len(items))))
+        for _ in range(2):
+            bad_items = G.mutate_value(rng, items)
+            if value_ok(bad_items) and sort_safe(t, bad_items):
+                ser_cases.append(("ser-malformed", t, h, w, bad_items, 1 if (rng.random() < 0.25 and isinstance(bad_items, (list, tuple, str)) and len(bad_items) >= 1) else 0))
+    reqs = ["SER %d %d %d %s %s" % (h, w, idx, G.term_tok(t), G.pv_tok(data)) for (_, t, h, w, data, idx) in ser_cases]
+    outs = m.batch(reqs)
+    texts = []          # (t, h, w, text) produced by successful serializations
+    for (kind, t, h, w, data, idx), o in zip(ser_cases, outs):
+        mo = parse_model(o, "ser")
+        c = obj(t)
+        io = timed(lambda: norm(vlib.guarded(lambda: c.serialize(env(h, w), data, idx))))
+        if mo == ("err", "Other") and io == ("err", "Other"):
+            ctx.count("tie:divergent-skipped")
+            continue
+        ctx.corr(kind, (G.term_repr(t), h, w, repr(data), idx), mo, io)
+        if io[0] == "ok" and io[1] is not None and latin1(io[1][1]):
+            texts.append((t, h, w, io[1][1]))
+
+    # ---- 2. deserialize: produced texts, with suffix / prefix, truncated, mutated, every Latin-1 char
+    de_cases = []
+    for (t, h, w, s) in texts:
+        de_cases.append(("de", t, h, w, s, 0))
+        suf = "".join(rng.choice(ALPHABET) for _ in range(rng.randint(1, 3)))
+        de_cases.append(("de", t, h, w, s + suf, 0))
+        pre = "".join(rng.choice(ALPHABET) for _ in range(rng.randint(1, 3)))
+        de_cases.append(("de", t, h, w, pre + s + suf, len(pre)))
+        if s:
+            de_cases.append(("de-malformed", t, h, w, s[:rng.randrange(len(s))], 0))
+            i = rng.randrange(len(s))
+            de_cases.append(("de-malformed", t, h, w, s[:i] + rng.choice(ALPHABET) + s[i + 1:], 0))
+            i = rng.randrange(len(s))
+            de_cases.append(("de-malformed", t, h, w, s[:i] + s[i + 1:], 0))
+            de_cases.append(("de-malformed", t, h, w, s, len(s)))
+    for t in terms:
+        h, w = rng.choice(pC15.SIZES)
+        for _ in range(6 if ctx.thorough else 3):
+            de_cases.append(("de-malformed", t, h, w, "".join(rng.choice(ALPHABET) for _ in range(rng.randint(0, 8))), 0))
+        de_cases.append(("de-malformed", t, h, w, "", 0))
+    leafy = [t for t in terms if t[0] not in ("R", "V")][:40] + G.CURATED[:8]
+    for t in leafy:
+        h, w = 2, 2
+        for code in range(256):
+            de_cases.append(("de-char", t, h, w, chr(code) + rng.choice(["", "0", "1f", "zz"]), 0))
+    reqs = ["DE %d %d %d %s %s" % (h, w, idx, G.term_tok(t), G.hx(s)) for (_, t, h, w, s, idx) in de_cases]
+    outs = m.batch(reqs)
+    for (kind, t, h, w, s, idx), o in zip(de_cases, outs):
+        mo = parse_model(o, "de")
+        c = obj(t)
+        io = timed(lambda: norm(vlib.guarded(lambda: c.deserialize(env(h, w), s, idx))))
+        if mo == ("err", "Other") and io == ("err", "Other"):
+            ctx.count("tie:divergent-skipped")
+            continue
+        ok = (mo[0] == io[0]) and (mo[1] == io[1] if mo[0] == "err" or mo[1] is None or io[1] is None
+                                   else (mo[1][0] == io[1][0] and strict_eq(mo[1][1], io[1][1])))
+        ctx.corr(kind, (G.term_repr(t), h, w, s, idx), mo if not ok else io, io)
+
+    # ---- 3. serialize_problem / deserialize_problem / URL wrappers
+    from cspuz.problem_serializer import (serialize_problem, deserialize_problem, serialize_problem_as_url,
+                                          deserialize_problem_as_url, get_puzzle_info_from_url)
+    cases = []
+    for (t, h, w, items) in pC15.gen_valid_cases(ctx, terms, 6 if ctx.thorough else 3):
+        if len(items) == 1:
+            cases.append((t, h, w, items[0]))
+            bad_v = G.mutate_value(rng, items[0])
+            if value_ok(bad_v) and sort_safe(t, [bad_v]):
+                cases.append((t, h, w, bad_v))
+    outs = m.batch(["SP %d %d %s %s" % (h, w, G.term_tok(t), G.pv_tok(v)) for (t, h, w, v) in cases])
+    url_texts = []
+    for (t, h, w, v), o in zip(cases, outs):
+        c = obj(t)
+        io = timed(lambda: vlib.guarded(lambda: serialize_problem(c, v, height=h, width=w)))
+        mo = parse_model(o, "str")
+        if mo == ("err", "Other") and io == ("err", "Other"):
+            continue
+        ctx.corr("serialize_problem", (G.term_repr(t), h, w, repr(v)), mo, io)
+        if io[0] == "ok" and latin1(io[1]):
+            url_texts.append((t, h, w, v, io[1]))
+    dp = []
+    for (t, h, w, v, s) in url_texts:
+        dp.append((t, h, w, s))
+        dp.append((t, h, w, s + rng.choice(ALPHABET)))
+        if s:
+            dp.append((t, h, w, s[:-1]))
+        dp.append((t, w, h, s))                      # swapped board size
+        dp.append((t, rng.choice([0, 1, h + 1]), rng.choice([0, 1, w + 1]), s))
+    outs = m.batch(["DP %d %d %s %s" % (h, w, G.term_tok(t), G.hx(s)) for (t, h, w, s) in dp])
+    for (t, h, w, s), o in zip(dp, outs):
+        c = obj(t)
+        io = timed(lambda: vlib.guarded(lambda: deserialize_problem(c, s, height=h, width=w)))
+        mo = parse_model(o, "pv")
+        if mo == ("err", "Other") and io == ("err", "Other"):
+            continue
+        ok = mo[0] == io[0] and (strict_eq(mo[1], io[1]) if mo[0] == "ok" else mo[1] == io[1])
+        ctx.corr("deserialize_problem", (G.term_repr(t), h, w, s), mo if not ok else io, io)
+    # URLs
+    names = ["nurikabe", "lits", "x", "a.b?c", "p\n"]
+    su, du, info = [], [], []
+    for (t, h, w, v, s) in url_texts[: (400 if ctx.thorough else 120)]:
+        nm = rng.choice(names)
+        pre = rng.choice(["https://puzz.link/p?", "http://pzv.jp/p.html?", "https://puzz.link/p?", "ftp://x/p?", "https:///p?", "http://a/b/p?"])
+        su.append((t, h, w, v, nm, pre))
+        url = pre + nm + "/%d/%d/" % (w, h) + s
+        variants = [url, url + "\nrest", url.replace("/p?", "/p.html?", 1), url.replace("https", "http", 1),
+                    url.replace("://", ":/", 1), url[:-1] if s else url + "0", pre + nm + "/%d/x%d/" % (w, h) + s,
+                    pre + nm + "/%d/%d" % (w, h), pre + "/%d/%d/" % (w, h) + s, "see " + url,
+                    pre + nm + "/0%d/%d_/" % (w, h) + s, url.replace("/p?", "/p.htm?", 1)]
+        for u in variants:
+            al = rng.choice([("A",), ("O", nm), ("O", "lits"), ("L", [nm, "lits"]), ("L", []), ("L", ["sudoku"])])
+            du.append((t, u, al, rng.random() < 0.5, rng.random() < 0.5))
+            info.append(u)
+    outs = m.batch(["SU %d %d %s %s %s %s" % (h, w, G.term_tok(t), G.hx(nm), G.hx(pre), G.pv_tok(v)) for (t, h, w, v, nm, pre) in su])
+    for (t, h, w, v, nm, pre), o in zip(su, outs):
+        c = obj(t)
+        io = timed(lambda: vlib.guarded(lambda: serialize_problem_as_url(c, nm, h, w, v, prefix=pre)))
+        ctx.corr("serialize_problem_as_url", (G.term_repr(t), h, w, repr(v), nm, pre), parse_model(o, "str"), io)
+
+    def al_tok(al):
+        if al[0] == "A":
+            return "A"
+        if al[0] == "O":
+            return "O " + G.hx(al[1])
+        return "L %d %s" % (len(al[1]), " ".join(G.hx(x) for x in al[1]))
+    outs = m.batch(["DU %s %s %s %d %d" % (G.term_tok(t), G.hx(u), al_tok(al), af, rs) for (t, u, al, af, rs) in du])
+    for (t, u, al, af, rs), o in zip(du, outs):
+        c = obj(t)
+        ap = None if al[0] == "A" else al[1]
+        io = timed(lambda: vlib.guarded(lambda: deserialize_problem_as_url(c, u, allowed_puzzles=ap, allow_failure=af, return_size=rs)))
+        mo = parse_model(o, "pv")
+        ok = mo[0] == io[0] and (strict_eq(mo[1], io[1]) if mo[0] == "ok" else mo[1] == io[1])
+        ctx.corr("deserialize_problem_as_url", (G.term_repr(t), u, repr(al), af, rs), mo if not ok else io, io)
+    outs = m.batch(["INFO " + G.hx(u) for u in info])
+    for u, o in zip(info, outs):
+        io = vlib.guarded(lambda: get_puzzle_info_from_url(u))
+        mo = parse_model(o, "pv")
+        ctx.corr("get_puzzle_info_from_url", u, mo, io)
+
+    # ---- 4. room partitions (all partitions of small boards in all orders, random, big)
+    plain = [("R", False, False), ("R", True, False), ("R", False, True)]
+    vt = ("V", ("O", [("H",), ("S", -1, "g")]), True, False)
+    rc = []
+    i = 0
+    for (h, w, rooms) in pC15.room_cases(ctx):
+        i += 1
+        rc.append((plain[i % 3], h, w, rooms))
+        rc.append((vt, h, w, (rooms, [rng.choice([-1, 0, 5, 16, 300]) for _ in rooms])))
+    outs = m.batch(["SP %d %d %s %s" % (h, w, G.term_tok(t), G.pv_tok(v)) for (t, h, w, v) in rc])
+    dps = []
+    for (t, h, w, v), o in zip(rc, outs):
+        c = obj(t)
+        io = vlib.guarded(lambda: serialize_problem(c, v, height=h, width=w))
+        ctx.corr("rooms-serialize", (G.term_repr(t), h, w, repr(v) if h * w <= 36 else "big"), parse_model(o, "str"), io)
+        if io[0] == "ok":
+            dps.append((t, h, w, io[1]))
+            if io[1] and rng.random() < 0.3:
+                s = io[1]
+                k = rng.randrange(len(s))
+                dps.append((t, h, w, s[:k] + rng.choice("0123456789abcdefghijklmnopqrstuvw") + s[k + 1:]))   # redundant borders
+    outs = m.batch(["DP %d %d %s %s" % (h, w, G.term_tok(t), G.hx(s)) for (t, h, w, s) in dps])
+    for (t, h, w, s), o in zip(dps, outs):
+        c = obj(t)
+        io = vlib.guarded(lambda: deserialize_problem(c, s, height=h, width=w))
+        mo = parse_model(o, "pv")
+        ok = mo[0] == io[0] and (strict_eq(mo[1], io[1]) if mo[0] == "ok" else mo[1] == io[1])
+        ctx.corr("rooms-deserialize", (G.term_repr(t), h, w, s if len(s) < 60 else "big"), mo if not ok else io, io)
+    # ill-formed room lists
+    badrooms = [
+        (2, 2, [[(0, 0), (0, 1)], [(1, 0)]]), (2, 2, [[(0, 0), (0, 1), (1, 0), (1, 1), (0, 0)]]),
+        (2, 2, [[(0, 0), (0, 1), (1, 0), (1, 2)]]), (2, 2, [[(0, 0), (0, 1), (1, 0), (2, 1)]]),
+        (2, 2, [[(0, 0), (0, 1), (1, 0), (1, -1)]]), (2, 2, [[(0, 0), (0, 1), (1, 0), (-1, 1)]]),
+        (2, 2, [[(0, 0), (0, 1), (1, 0), (-1, 5)]]), (2, 2, [[(0, 0), (0, 1), (1, 0), (5, 5)]]),
+        (2, 2, [[(0, 0), (0, 1), (1, 0), (1, "a")]]), (2, 2, [[(0, 0), (0, 1), (1, 0), ("a", 1)]]),
+        (2, 2, [[(0, 0), (0, 1), (1, 0), (None, 1)]]), (2, 2, [[(0, 0), (0, 1), (1, 0), (1, 1, 1)]]),
+        (2, 2, [[(0, 0), (0, 1), (1, 0), [1, 1]]]), (2, 2, [((0, 0), (0, 1), (1, 0), (1, 1))]),
+        (2, 2, ([(0, 0), (0, 1), (1, 0), (1, 1)],)), (2, 2, [[(0, 0), (1, 1)], [(0, 1), (1, 0)]]),
+        (2, 2, [[], [(0, 0), (0, 1), (1, 0), (1, 1)]]), (2, 2, None), (2, 2, []), (1, 1, [[(0, 0)]]), (1, 1, [[]]),
+        (0, 0, []), (0, 3, []), (3, 0, []), (2, 2, [[(0, 0), (0, 1), (1, 0), (5, "a")]]),
+    ]
+    reqs, cs = [], []
+    for (h, w, v) in badrooms:
+        for t in plain[:2]:
+            for idx in (0, 1):
+                cs.append((t, h, w, [v], idx))
+        cs.append((vt, h, w, [(v, [1, 2, 3])], 0))
+        cs.append((vt, h, w, [(v, [1])], 0))
+        cs.append((vt, h, w, [(v, 3)], 0))
+        cs.append((vt, h, w, [(v,)], 0))
+    cs = [c for c in cs if value_ok(c[3])]
+    outs = m.batch(["SER %d %d %d %s %s" % (h, w, idx, G.term_tok(t), G.pv_tok(d)) for (t, h, w, d, idx) in cs])
+    for (t, h, w, d, idx), o in zip(cs, outs):
+        c = obj(t)
+        io = norm(vlib.guarded(lambda: c.serialize(env(h, w), d, idx)))
+        ctx.corr("rooms-malformed", (G.term_repr(t), h, w, repr(d), idx), parse_model(o, "ser"), io)
+
+    # ---- 5. int() and str.isdigit models on short Latin-1 strings
+    alpha = "0159afgzAFGZ_+- x\t\n\xa0\x85\x1c\xb2\xb9\xe9X."
+    strs = [""] + [a for a in alpha] + [a + b for a in alpha for b in alpha]
+    n3 = 6000 if ctx.thorough else 1500
+    strs += ["".join(rng.choice(alpha) for _ in range(3)) for _ in range(n3)]
+    strs += ["".join(rng.choice(alpha) for _ in range(rng.randint(4, 7))) for _ in range(n3 // 3)]
+    strs += [chr(i) for i in range(256)] + [chr(i) + "7" for i in range(256)] + ["7" + chr(i) for i in range(256)]
+    for base in (10, 16, 36):
+        outs = m.batch(["INT %d %s" % (base, G.hx(s)) for s in strs])
+        for s, o in zip(strs, outs):
+            io = vlib.guarded(lambda: int(s, base))
+            t = o.split()
+            mo = ("err", ERR[int(t[1])]) if t[0] == "E" else ("ok", int(t[1][1:]))
+            ctx.corr("int", (s, base), mo, io)
+    allc = "".join(chr(i) for i in range(256))
+    o = m.call("ISDIGIT " + G.hx(allc))
+    ctx.corr("isdigit", "latin-1", o, "".join("1" if ch.isdigit() else "0" for ch in allc))
